@@ -98,6 +98,61 @@ def run_case(case):
     if case["kind"] == "exact":
         return run_exact(case, rng)
     s = make_system(rng)
+    if case["kind"] == "nongen" and (case["seed"] // 6) % 2 == 1:
+        # fully specified masses, but one COMPONENT is not generable (object without distribution / negative weight);
+        # in half of these the last component carries no specifier and the caller supplies the system mass
+        from ..ast import StochAst
+
+        fr, M = assign(rng, s, 5)
+        polys = [m for m in s.mols if any(isinstance(e, StochAst) for e in m.elements)]
+        if not polys:
+            return {"viol": [], "cnt": {"nongen_no_polymer": 1}, "nt": []}
+        victim = polys[-1] if rng.random() < 0.6 else rng.choice(polys)
+        st = [e for e in victim.elements if isinstance(e, StochAst)][0]
+        if rng.random() < 0.6:
+            st.dist = None
+        else:
+            st.all_descs()[0][0].weight = -1.0
+        kw = {}
+        if rng.random() < 0.5 and len(s.mols) >= 1:
+            # move the victim to the end, drop its specifier, give the system mass to the constructor
+            s.mols.remove(victim)
+            s.mols.append(victim)
+            victim.mixture = None
+            kw = {"system_molweight": float(M)}
+            if len(s.mols) > 1:
+                rest = 90.0
+                for m in s.mols[:-1]:
+                    m.mixture = ("pct", round(rest / (len(s.mols) - 1), 4))
+        text = s.to_text()
+        try:
+            S = gbigsmiles.System(text, **kw)
+        except Exception:
+            return {"viol": [], "cnt": {"nongen_rejected_at_parse": 1}, "nt": []}
+        cnt["nongenerable_probed"] += 1
+        cnt["nongenerable_component_probed"] += 1
+        label = f"System({text!r}, {kw})"
+        if S.generable:
+            viol.append({"cls": "c13.system-with-nongenerable-component-reports-generable", "msg": f"{label}: a component is not generable but the system reports generable = True", "text": text})
+        try:
+            first = next(iter(run_generator(S, W.spy(1))))
+            viol.append({"cls": "c13.nongenerable-system-iterates", "msg": f"{label} has a non-generable component but its generator yielded {first.smiles}", "text": text})
+        except StopIteration:
+            pass
+        except Exception:
+            cnt["nongenerable_generator_refused"] += 1
+        for k in range(4):
+            try:
+                with time_limit(60):
+                    g = S.generate(rng=W.spy(2 + k))
+                viol.append({"cls": "c13.nongenerable-system-generates", "msg": f"{label} has a non-generable component but System.generate() returned {g.smiles}", "text": text})
+                break
+            except StepTimeout:
+                cnt["watchdog"] += 1
+            except Exception:
+                cnt["nongenerable_generate_refused"] += 1
+        cnt["evaluations"] = 1
+        return {"viol": viol, "cnt": dict(cnt), "nt": [], "sample": {"system_with_nongenerable_component": text, "constructor_kwargs": kw}}
     if case["kind"] == "nongen":
         # under-determined: drop specifiers so that the system is not generable
         fr, M = assign(rng, s, 5)
